@@ -41,6 +41,51 @@ type cancelCtx struct {
 	deadline time.Time
 	hasDL    bool
 	stop     func() bool
+	after    []*afterReg
+}
+
+type afterReg struct {
+	f       func()
+	stopped bool
+	started bool
+}
+
+func (a *afterReg) start() {
+	if a.stopped || a.started {
+		return
+	}
+	a.started = true
+	if vs.InTimer() {
+		vs.GoFromScheduler("context.AfterFunc", a.f)
+	} else {
+		vs.GoNamed("context.AfterFunc", false, a.f)
+	}
+}
+
+// AfterFunc arranges to call f in its own goroutine after ctx is done (context.AfterFunc).
+func AfterFunc(ctx Context, f func()) (stop func() bool) {
+	a := &afterReg{f: f}
+	var c *cancelCtx
+	switch x := ctx.(type) {
+	case *cancelCtx:
+		c = x
+	case *valueCtx:
+		c = x.cancelParent()
+	}
+	if c != nil {
+		if c.err != nil {
+			a.start()
+		} else {
+			c.after = append(c.after, a)
+		}
+	}
+	return func() bool {
+		if a.started || a.stopped {
+			return false
+		}
+		a.stopped = true
+		return true
+	}
 }
 
 func (c *cancelCtx) Deadline() (time.Time, bool) {
@@ -64,6 +109,9 @@ func (c *cancelCtx) cancel(err error) {
 	}
 	for _, ch := range c.children {
 		ch.cancel(err)
+	}
+	for _, a := range c.after {
+		a.start()
 	}
 }
 
